@@ -153,7 +153,7 @@ abbrev EqFullStatement : Prop :=
 theorem eq_full_statement_status : EqFullStatement ↔ PtGen.eqFullHolds = true := by
   decide +kernel
 
-/-! ## non-vacuity: concrete instances -/
+/-! ## non-vacuity: concrete instances (fixed tables, independent of today's extraction) -/
 
 def exP (name : String) : Term :=
   .node "Placeholder" [("shape", "(4,3)"), ("dtype", "f8"), ("axes", ""), ("tags", ""),
@@ -161,30 +161,41 @@ def exP (name : String) : Term :=
 def exRoll (shift : String) (tb : String) (x : Term) : Term :=
   .node "Roll" [("axes", ""), ("tags", ""), ("non_equality_tags", tb), ("shift", shift),
     ("axis", "0")] [("array", [x])]
-def exSem : Tbl := tblOf PtGen.semanticFields
-def exEq : Tbl := tblOf PtGen.eqFlips
+/-- the semantic table of two kinds -/
+def exSem : Tbl := tblOf [("Placeholder", ["shape", "dtype", "axes", "tags", "name"]),
+  ("Roll", ["array", "axes", "tags", "shift", "axis"]), ("Stack", ["arrays", "axis"])]
+/-- a comparer table that forgets `Roll.shift` -/
+def exBad : Tbl := tblOf [("Placeholder", ["shape", "dtype", "axes", "tags", "name"]),
+  ("Roll", ["array", "axes", "tags", "axis"])]
 
--- the extracted comparer table on concrete terms: tracebacks ignored, shift compared (depth 2)
-example : eqStruct exEq (exRoll "1" "tb1" (exP "x")) (exRoll "1" "tb2" (exP "x")) = true := by decide
-example : eqStruct exEq (exRoll "1" "" (exP "x")) (exRoll "2" "" (exP "x")) = false := by decide
-example : eqStruct exEq (exRoll "1" "" (exP "x")) (exRoll "1" "" (exP "y")) = false := by decide
+-- tracebacks ignored, shift compared, operands compared (depth 2)
+example : eqStruct exSem (exRoll "1" "tb1" (exP "x")) (exRoll "1" "tb2" (exP "x")) = true := by decide
+example : eqStruct exSem (exRoll "1" "" (exP "x")) (exRoll "2" "" (exP "x")) = false := by decide
+example : eqStruct exSem (exRoll "1" "" (exP "x")) (exRoll "1" "" (exP "y")) = false := by decide
 example : SemEq exSem (exRoll "1" "tb1" (exP "x")) (exRoll "1" "tb2" (exP "x")) := by decide
 example : ¬ SemEq exSem (exRoll "1" "" (exP "x")) (exRoll "2" "" (exP "x")) := by decide
--- hypotheses of `code_eq_iff_semEq` / `eq_iff_semEq_partial` are satisfiable
-example : (exRoll "1" "" (exP "x")).allKinds cleanKind = true := by decide +kernel
+-- a defective table is told apart from the specification (what `eq-ignores:Roll.shift` means)
+example : eqStruct exBad (exRoll "1" "" (exP "x")) (exRoll "2" "" (exP "x")) = true := by decide
+-- hypothesis of `eq_iff_semEq`: satisfiable (a table listing the same fields in another order)
+example : TblEquivOn (fun _ => true) (fun _ => ["shift", "array"]) (fun _ => ["array", "shift", "array"]) := by
+  intro k _ f; simp [or_comm]
+-- hypotheses of `eq_iff_semEq_partial` / `code_eq_iff_semEq`: some probed kind is clean today
+example : ∃ k ∈ PtGen.kinds, (Term.node k [] []).allKinds cleanKind = true := by decide +kernel
 -- hypothesis of `eq_hash`: a hash table below the comparer table
 example : TblSub (fun _ => ["shift"]) (fun _ => ["shift", "array"]) := by
   intro k f h; simp at h ⊢; exact Or.inl h
 -- congruence at depth 2
-def exCtx : Ctx := .node "Roll" [("shift", "3")] [] "array" [] (.node "Stack" [] [] "arrays" [exP "z"] .hole [] []) [] []
+def exCtx : Ctx := .node "Roll" [("shift", "3")] [] "array" []
+  (.node "Stack" [] [] "arrays" [exP "z"] .hole [] []) [] []
 example : exCtx.depth = 2 := by decide
-example : eqStruct exEq (exCtx.plug (exRoll "1" "a" (exP "x"))) (exCtx.plug (exRoll "1" "b" (exP "x"))) = true := by decide
--- a heap with sharing: node 2 and 3 both use node 0 twice / nodes 0 and 1
+example : eqStruct exSem (exCtx.plug (exRoll "1" "a" (exP "x")))
+    (exCtx.plug (exRoll "1" "b" (exP "x"))) = true := by decide
+-- a heap with sharing: node 2 uses node 0 twice, node 3 uses nodes 0 and 1 (equal, distinct objects)
 def exHeap : Heap := [
   ⟨"Placeholder", [("name", "x")], []⟩, ⟨"Placeholder", [("name", "x")], []⟩,
   ⟨"Stack", [("axis", "0")], [("arrays", [0, 0])]⟩, ⟨"Stack", [("axis", "0")], [("arrays", [0, 1])]⟩]
 example : exHeap.wfB = true ∧ 2 < exHeap.length ∧ 3 < exHeap.length := by decide
-example : eqMemo exEq true exHeap exHeap 2 3 = true := by decide
-example : eqStruct exEq (unfold exHeap 2) (unfold exHeap 3) = true := by decide
+example : eqMemo exSem true exHeap exHeap 2 3 = true := by decide
+example : eqStruct exSem (unfold exHeap 2) (unfold exHeap 3) = true := by decide
 
 end Pt.EqM
